@@ -47,8 +47,8 @@ TAG_GROUPS = {
     "@ic_push": "C05,C01,C02,C03,C04,C12,C13,C19",
     "@ic_index": "C05,C01,C02,C03,C04,C12,C13,C19",
     "@ic_len": "C05,C01,C02,C03,C04,C12,C13,C19",
-    "@ic_clear": "C05,C08,C01,C02,C03,C04,C12,C19",
-    "@ic_reserve": "C05,C10,C01,C02,C03,C04,C12,C19",
+    "@ic_clear": "C05,C08,C03,C12",
+    "@ic_reserve": "C05,C10,C03",
 }
 
 
